@@ -145,7 +145,11 @@ def props_theorems(pid):
     path = os.path.join(LEAN, 'OdlModel', 'Props', pid + '.lean')
     out = []
     with open(path) as f:
-        lines = f.read().split('\n')
+        text = f.read()
+    # block comments / docstrings are blanked (line numbers kept) so that a docstring line that
+    # happens to begin with the word "theorem" is not taken for a declaration
+    text = re.sub(r'/-.*?-/', lambda m: '\n' * m.group(0).count('\n'), text, flags=re.S)
+    lines = text.split('\n')
     starts = []
     for i, l in enumerate(lines, 1):
         m = re.match(r'^(?:private\s+|protected\s+)?theorem\s+(\S+)', l)
